@@ -52,6 +52,31 @@ def self_cell(dim):
     return const(1) / (const(4) * PW.of(PI) * dx)
 
 
+def isotropic(got, dim):
+    """the sampled kernel is invariant under every permutation of (axis index, axis size) pairs (used by C03 and C14)"""
+    import itertools
+    for perm in itertools.permutations(range(dim)):
+        sub = {}
+        for k in range(dim):
+            sub[("f", "i%d" % k, ())] = Poly.atom(("f", "i%d" % perm[k], ()))
+            sub[("s", SIZES[dim][k])] = Poly.sym(SIZES[dim][perm[k]])
+        # dx is the common spacing: express x_range/nx as a symbol first
+        e = got.subs({("s", "x_range"): Poly.sym("dx") * Poly.sym("nx")})
+        e2 = _simultaneous_subs(e, sub)
+        if not pw_equal(e, e2):
+            return False
+    return True
+
+
+def sampled_kernel(S, dim):
+    """closed form of the array whose transform the unbounded solver stores at construction, at generic index (i0, i1[, i2])"""
+    inst, init_tr = build(S, dim)
+    ffts = [op for op in init_tr if op.kind == "FFT"]
+    if len(ffts) != 1 or ffts[0].inp.alloc.valfn is None:
+        return None
+    return ffts[0].inp.alloc.valfn(tuple(fld("i%d" % k, ()) for k in range(dim)))
+
+
 def check_dim(S, rep, dim):
     lab = "%dD" % dim
     try:
@@ -109,19 +134,7 @@ def check_dim(S, rep, dim):
            key="C03.c|%s|kshape|%s" % (lab, g.shape), nontrivial=False)
     rep.ob("C03.c", lab + " kernel transformed into the spectral buffer", ffts[0].out.same_cells(fwd.out_arr), "output %s" % ffts[0].out.describe(),
            key="C03.c|%s|kout" % lab, nontrivial=False)
-    # isotropy (used by C14): the kernel is invariant under every permutation of (axis, size) pairs
-    import itertools
-    iso = True
-    for perm in itertools.permutations(range(dim)):
-        sub = {}
-        for k in range(dim):
-            sub[("f", "i%d" % k, ())] = Poly.atom(("f", "i%d" % perm[k], ()))
-            sub[("s", SIZES[dim][k])] = Poly.sym(SIZES[dim][perm[k]])
-        # dx is the common spacing: express x_range/nx as a symbol first
-        e = got.subs({("s", "x_range"): Poly.sym("dx") * Poly.sym("nx")})
-        e2 = _simultaneous_subs(e, sub)
-        if not pw_equal(e, e2):
-            iso = False
+    iso = isotropic(got, dim)
     rep.ob("C03.iso", lab + " kernel is symmetric under relabelling the axes", iso, "the sampled kernel treats the axes differently", key="C03.iso|%s" % lab)
     # the scaled spectral kernel: fresh array = spectral buffer * dx^dim, not an alias of a work buffer
     name = "fourier_greens_function_times_dx_%s" % ("squared" if dim == 2 else "cubed")
